@@ -427,7 +427,7 @@ def run_shard(ctx):
         info["sample"] = {"structure": sa.summary(), "contact": pair, "relabelling": kinds}
         ctx.account(case, v, info)
 
-    ctx.hypothesis_stage("inter-chain-contacts", contacts(), contact_body, 600 if quick else 9000)
+    ctx.hypothesis_stage("inter-chain-contacts", contacts(), contact_body, 2400 if quick else 16000)
 
     # the repository's own insertion-coded structure under twin-preserving relabellings, and the F5 witness
     if ctx.shard == 0:
